@@ -59,7 +59,7 @@ fn limits_for(t: &mut Tape) -> Limits {
     }
 }
 
-fn gen_std_case(t: &mut Tape, lib: &Lib, excluded: &[String]) -> ValCase {
+pub(super) fn gen_std_case(t: &mut Tape, lib: &Lib, excluded: &[String]) -> ValCase {
     let cfg = GenCfg {
         call_chance: 90,
         int_pool: {
